@@ -5,6 +5,7 @@ CONSTANTS
   Periods <- PeriodsB
   MaxNow = 3
   EnvOps = {"stop", "kill", "abort"}
+  Stalls = {}
   VirtualClock = TRUE
   Instant = TRUE
   UnstartedKillsInterval = FALSE
